@@ -75,18 +75,38 @@ type serverWorld struct {
 
 var paramsInit bool
 
+// altVersion: an extra protocol version installed by the harness into params.Versions, with other committee sizes than the
+// shipped ones (which all share 26 / 2000 / 4000), so that "which version's committee" is observable.
+const altVersion = params.YouVersion(9001)
+
+// topVersion: the newest shipped version of the test-case table (the harness' own extra versions excluded)
+func topVersion() params.YouVersion {
+	var top params.YouVersion
+	for v := range params.Versions {
+		if v > top && v < 9000 {
+			top = v
+		}
+	}
+	return top
+}
+
+func installAltVersion() {
+	if _, ok := params.Versions[altVersion]; ok {
+		return
+	}
+	a := params.Versions[topVersion()].DeepCopy()
+	a.Version = altVersion
+	a.ProposerThreshold, a.ValidatorThreshold, a.CertValThreshold = 20, 1500, 3000
+	params.Versions[altVersion] = a
+}
+
 // newServerWorld: a node at (round 50, index 2) whose look-back state holds three online chancellors.
 func newServerWorld(seedBytes []byte, keyBytes [][]byte) (*serverWorld, error) {
 	if !paramsInit {
 		params.InitNetworkId(params.NetworkIdForTestCase)
 		paramsInit = true
 	}
-	var top params.YouVersion
-	for v := range params.Versions {
-		if v > top {
-			top = v
-		}
-	}
+	top := topVersion()
 	ypv := params.Versions[top]
 	ypc := ypv.DeepCopy()
 	yp := &ypc
